@@ -166,3 +166,90 @@ Proof.
     rewrite collapse_nows by apply nows_render_int. rewrite parse_decimal_render_int.
     unfold qbounds_ok, zbounds_ok. destruct minI, maxI, minE; simpl; rewrite ?Qle_bool_inject; reflexivity.
 Qed.
+
+(* ---------- decimal-valued classes on finite floats ---------- *)
+Definition qfacet (tag val:string) (q:Q) : bool :=
+  if String.eqb tag "minExclusive" then match z_of_dec val with Some b => negb (Qle_bool q (inject_Z b)) | None => false end
+  else if String.eqb tag "minInclusive" then match z_of_dec val with Some b => Qle_bool (inject_Z b) q | None => false end
+  else if String.eqb tag "maxInclusive" then match z_of_dec val with Some b => Qle_bool q (inject_Z b) | None => false end
+  else negb (String.eqb tag "minLength").
+Definition qsetter (k:setter) (q:Q) : bool :=
+  match k with SNonNeg => Qle_bool (inject_Z 0) q | SPos => negb (Qle_bool q (inject_Z 0)) | SCheckType => true | SToken => false end.
+Definition float_accepts (has_restr:bool) (restr:list (string*string)) (chain:list setter) (q:Q) : bool :=
+  (if has_restr then forallb (fun f => qfacet (fst f) (snd f) q) restr else true) && forallb (fun k => qsetter k q) chain.
+Definition is_dec_r (r:rcls) : bool :=
+  match r with
+  | R types [] [] None None _ _ _ restr chain => existsb (fun t => match t with TFloat => true | _ => false end) types
+       && forallb (fun k => match k with SToken => false | _ => true end) chain
+  | _ => false end.
+Definition finite_kind (k:fkind) : bool := match k with FPlain | FExp => true | _ => false end.
+Lemma num_of_finite k q rp : finite_kind k = true -> num_of (VFloat k q rp) = Some (XFin q).
+Proof. destruct k; simpl; auto; discriminate. Qed.
+Lemma facets_float restr k q rp : finite_kind k = true -> facets restr (VFloat k q rp) = Ok <-> forallb (fun f => qfacet (fst f) (snd f) q) restr = true.
+Proof.
+  intros FK. induction restr as [|[tag val] r IH]; simpl; [tauto|]. unfold qfacet at 1. simpl.
+  destruct (String.eqb tag "minLength") eqn:E1.
+  - apply String.eqb_eq in E1. subst. simpl. split; [discriminate|]. intros H. discriminate.
+  - destruct (String.eqb tag "minExclusive") eqn:E2; simpl.
+    + destruct (z_of_dec val) as [b|]; simpl; [|split; discriminate]. unfold cmp_fail. rewrite (num_of_finite k q rp FK). rewrite E2. simpl.
+      destruct (Qle_bool q (inject_Z b)); simpl; [split; discriminate|]. rewrite IH. tauto.
+    + destruct (String.eqb tag "minInclusive") eqn:E3; simpl.
+      * destruct (z_of_dec val) as [b|]; simpl; [|split; discriminate]. unfold cmp_fail. rewrite (num_of_finite k q rp FK). rewrite E2, E3. unfold xlt. simpl.
+        destruct (Qle_bool (inject_Z b) q); simpl; [rewrite IH; tauto|split; discriminate].
+      * destruct (String.eqb tag "maxInclusive") eqn:E4; simpl.
+        -- destruct (z_of_dec val) as [b|]; simpl; [|split; discriminate]. unfold cmp_fail. rewrite (num_of_finite k q rp FK). rewrite E2, E3, E4. unfold xlt. simpl.
+           destruct (Qle_bool q (inject_Z b)); simpl; [rewrite IH; tauto|split; discriminate].
+        -- rewrite IH. tauto.
+Qed.
+Theorem float_r_spec r : is_dec_r r = true ->
+  match r with R _ _ _ _ _ _ _ has_restr restr chain =>
+    forall k q rp, finite_kind k = true -> fst (run r (VFloat k q rp)) = Ok <-> float_accepts has_restr restr chain q = true end.
+Proof.
+  destruct r as [types forced permitted members pattern pre_ sub has_restr restr chain]. simpl.
+  destruct forced; try discriminate. destruct permitted; try discriminate. destruct members; try discriminate. destruct pattern; try discriminate.
+  intros H. apply andb_true_iff in H as [HT HC]. intros fk q rp FK. unfold float_accepts.
+  assert (CT: r_check_type types [] (VFloat fk q rp) = Ok).
+  { unfold r_check_type. simpl. clear -HT. induction types as [|[| |] t IH]; simpl in *; auto; try discriminate; rewrite IH; auto. }
+  pose proof (num_of_finite fk q rp FK) as NO.
+  induction chain as [|k rest IH]; simpl in *.
+  - rewrite CT. simpl. rewrite andb_true_r. destruct has_restr; simpl; [apply facets_float; auto|tauto].
+  - apply andb_true_iff in HC as [K HC]. specialize (IH HC). destruct k; try discriminate; simpl.
+    + rewrite CT. rewrite IH. tauto.
+    + match goal with |- fst (match ?g with _ => _ end) = _ <-> _ => destruct g as [[] v'] eqn:G end; simpl in *.
+      * rewrite NO. unfold xlt. simpl. destruct (Qle_bool (inject_Z 0) q) eqn:L; simpl.
+        -- rewrite <- IH. tauto.
+        -- split; [discriminate|]. intros H. apply andb_true_iff in H as [_ H]. discriminate.
+      * split; [discriminate|]. intros H. apply andb_true_iff in H as [A B]. apply andb_true_iff in B as [_ B]. assert (TypeErr = Ok) by (apply IH; rewrite A, B; auto). discriminate.
+      * split; [discriminate|]. intros H. apply andb_true_iff in H as [A B]. apply andb_true_iff in B as [_ B]. assert (ValueErr = Ok) by (apply IH; rewrite A, B; auto). discriminate.
+      * split; [discriminate|]. intros H. apply andb_true_iff in H as [A B]. apply andb_true_iff in B as [_ B]. assert (OtherErr = Ok) by (apply IH; rewrite A, B; auto). discriminate.
+    + match goal with |- fst (match ?g with _ => _ end) = _ <-> _ => destruct g as [[] v'] eqn:G end; simpl in *.
+      * rewrite NO. simpl. destruct (Qle_bool q (inject_Z 0)) eqn:L; simpl.
+        -- split; [discriminate|]. intros H. apply andb_true_iff in H as [_ H]. discriminate.
+        -- rewrite <- IH. tauto.
+      * split; [discriminate|]. intros H. apply andb_true_iff in H as [A B]. apply andb_true_iff in B as [_ B]. assert (TypeErr = Ok) by (apply IH; rewrite A, B; auto). discriminate.
+      * split; [discriminate|]. intros H. apply andb_true_iff in H as [A B]. apply andb_true_iff in B as [_ B]. assert (ValueErr = Ok) by (apply IH; rewrite A, B; auto). discriminate.
+      * split; [discriminate|]. intros H. apply andb_true_iff in H as [A B]. apply andb_true_iff in B as [_ B]. assert (OtherErr = Ok) by (apply IH; rewrite A, B; auto). discriminate.
+Qed.
+(* the schema side on a text that is a plain decimal numeral of value q' *)
+Fixpoint decimal_xr (x:xr) : bool := match x with XDecimal => true | XRestr base _ [] None None _ _ _ => decimal_xr base | _ => false end.
+Fixpoint xq_ok (x:xr) (q:Q) : bool :=
+  match x with XDecimal => true | XRestr base _ [] None None minI maxI minE => xq_ok base q && qbounds_ok minI maxI minE q | _ => false end.
+Lemma Qle_bool_compat a b c d : a == b -> c == d -> Qle_bool a c = Qle_bool b d.
+Proof. intros E1 E2. apply Bool.eq_true_iff_eq. rewrite !Qle_bool_iff. rewrite E1, E2. tauto. Qed.
+Lemma qbounds_compat mi ma me p q : p == q -> qbounds_ok mi ma me p = qbounds_ok mi ma me q.
+Proof.
+  intros E. unfold qbounds_ok. destruct mi, ma, me; simpl;
+    rewrite ?(Qle_bool_compat _ _ p q (Qeq_refl _) E), ?(Qle_bool_compat p q _ _ E (Qeq_refl _)); reflexivity.
+Qed.
+Lemma xq_ok_compat x p q : p == q -> xq_ok x p = xq_ok x q.
+Proof.
+  intros E. induction x; simpl; auto. destruct enum; auto. destruct pat; auto. destruct minlen; auto. rewrite IHx. rewrite (qbounds_compat minI maxI minE p q E). reflexivity.
+Qed.
+Theorem xrun_plain_decimal x rp q' : decimal_xr x = true -> nows rp = true -> parse_decimal rp = Some q' -> xrun x rp = xq_ok x q'.
+Proof.
+  intros D NW P. induction x; simpl in *; try discriminate.
+  - rewrite collapse_nows by auto. rewrite P. reflexivity.
+  - destruct enum; try discriminate. destruct pat; try discriminate. destruct minlen; try discriminate.
+    rewrite IHx by auto. rewrite !andb_true_r. f_equal. rewrite collapse_nows by auto. rewrite P.
+    destruct minI, maxI, minE; reflexivity.
+Qed.
